@@ -119,6 +119,8 @@ def pick(rng, names):
     n = rng.choice(names)
     if n == "early-shared":
         return early_shared(rng)
+    if n == "compose":
+        return compose(rng)
     if n == "nested-entry":
         return nested_entry(rng)
     if n == "rewait":
@@ -192,3 +194,82 @@ def rich(rng):
     if n == "cached":
         return cached(rng)
     return pick(rng, [n])
+
+
+def compose(rng, base=None):
+    """A whole program of another family (gated, cyclic, signal-ordered, fallback DAG) used as ONE nested-graph node
+    of an outer graph, optionally twice (two sibling copies running in the same step), behind a feeding node and in
+    front of a consuming node, to depth 1-2. No reference model is attached: the family serves the differential and
+    trace-rule oracles (C02, C12, C13, C15), which need none."""
+    import copy
+
+    from hgmon import ref
+
+    base = base or pick(rng, ["gated", "gated", "loop", "loop", "waitdag", "dag-fallback", "rewait", "lateclosed", "early-shared"])
+    inner = copy.deepcopy(base["spec"])
+    inputs = dict(base["inputs"])
+    # a cyclic program with several entry points cannot be run as a nested node (the wrapper lists the parameters of
+    # all of them and the inner run finds the supply ambiguous - known finding of C08): take another base
+    from hgmon import build
+
+    for _ in range(20):
+        eps = getattr(build.build_program(inner).graph.inputs, "entrypoints", None) or {}
+        if len(eps) <= 1:
+            break
+        base = pick(rng, ["gated", "loop", "loop", "waitdag"])
+        inner = copy.deepcopy(base["spec"])
+        inputs = dict(base["inputs"])
+    depth = rng.randint(1, 2)
+    cur, cur_inputs = inner, inputs
+    for d in range(depth):
+        name = f"lvl{d}"
+        cur = dict(cur)
+        cur["name"] = name
+        nodes = [{"k": "sub", "name": name, "prog": cur}]
+        data_outs = [e for ns in cur["nodes"] for e in ref.data_output_names(ns)]
+        # a feeding node in front of one plain (string-valued) input of the wrapped program
+        feedable = [k for k, v in cur_inputs.items() if isinstance(v, str) and v.startswith("run:") and k not in data_outs and k not in _bound_names(cur)]
+        new_inputs = dict(cur_inputs)
+        if feedable and rng.random() < 0.6:
+            k = rng.choice(feedable)
+            nodes.insert(0, {"k": "fn", "name": f"feed{d}", "params": [{"n": f"z{d}"}], "outs": [k]})
+            new_inputs.pop(k)
+            new_inputs[f"z{d}"] = f"run:z{d}"
+        exposed = list(dict.fromkeys(data_outs))
+        if exposed and rng.random() < 0.7:
+            nodes.append({"k": "fn", "name": f"post{d}", "params": [{"n": rng.choice(exposed)}], "outs": [f"post{d}_out"]})
+        if rng.random() < 0.4:
+            # an unrelated sibling that is in flight together with the nested run
+            nodes.append({"k": "fn", "name": f"side{d}", "params": [{"n": f"s{d}"}], "outs": [f"side{d}_out"]})
+            new_inputs[f"s{d}"] = f"run:s{d}"
+        rng.shuffle(nodes)
+        cur = {"name": f"outer{d}", "nodes": nodes, "bind": {}}
+        cur_inputs = new_inputs
+    cur_inputs = _complete_entry(cur, cur_inputs)
+    return {"family": "compose", "spec": cur, "inputs": cur_inputs, "kw": {}, "unique_outputs": False, "template": f"compose({base['family']},{base.get('template', '')},depth={depth})"}
+
+
+def _bound_names(spec) -> set:
+    out = set(spec.get("bind") or {})
+    for ns in spec["nodes"]:
+        if ns["k"] == "sub":
+            out |= _bound_names(ns["prog"])
+    return out
+
+
+def _complete_entry(spec, inputs):
+    """A cyclic program used as a node turns into a self-cycle of the wrapper at the outer level, whose entry point
+    lists every cycle parameter of the wrapper: supply the ones the flat program did not need (same integer seed)."""
+    from hgmon import build
+
+    g = build.build_program(spec).graph
+    eps = getattr(g.inputs, "entrypoints", None) or {}
+    if not eps:
+        return inputs
+    ints = [v for v in inputs.values() if isinstance(v, int) and not isinstance(v, bool)]
+    seed = ints[0] if ints else 0
+    best = max(eps.items(), key=lambda kv: len(set(kv[1]) & set(inputs)))
+    out = dict(inputs)
+    for p in best[1]:
+        out.setdefault(p, seed)
+    return out
